@@ -6,28 +6,28 @@ From Pi2 Require Import ML.Syntax ML.Subst ML.Machine.
 Import ListNotations.
 Open Scope N_scope.
 
-Inductive instr :=
-| ISym (id:N) | IImp | IApp | IMeta (id:N)
-| IProp1 | IProp2 | IMP
-| IInst (ids:list N)
-| IPop | ISave | ILoad (i:N) | IPublish.
+Inductive oinstr :=
+| OSym (id:N) | OImp | OApp | OMeta (id:N)
+| OProp1 | OProp2 | OMP
+| OInst (ids:list N)
+| OPop | OSave | OLoad (i:N) | OPublish.
 
-Definition enc1 (i:instr) : list N :=
+Definition enc1 (i:oinstr) : list N :=
   match i with
-  | ISym id => [4; id]
-  | IImp => [5]
-  | IApp => [6]
-  | IMeta id => [137; id]
-  | IProp1 => [12]
-  | IProp2 => [13]
-  | IMP => [21]
-  | IInst ids => 26 :: N.of_nat (length ids) :: ids
-  | IPop => [27]
-  | ISave => [28]
-  | ILoad i => [29; i]
-  | IPublish => [30]
+  | OSym id => [4; id]
+  | OImp => [5]
+  | OApp => [6]
+  | OMeta id => [137; id]
+  | OProp1 => [12]
+  | OProp2 => [13]
+  | OMP => [21]
+  | OInst ids => 26 :: N.of_nat (length ids) :: ids
+  | OPop => [27]
+  | OSave => [28]
+  | OLoad i => [29; i]
+  | OPublish => [30]
   end.
-Definition encode (is:list instr) : list N := flat_map enc1 is.
+Definition encode (is:list oinstr) : list N := flat_map enc1 is.
 
 (** pop [n] patterns (head = top); [None] if a non-pattern or too few *)
 Fixpoint pop_pats (n:nat) (s:list term) : option (list pat * list term) :=
@@ -43,23 +43,23 @@ Fixpoint pop_pats (n:nat) (s:list term) : option (list pat * list term) :=
 
 Definition g0 := guards_sound.
 
-Definition irun (ph:phase) (i:instr) (st:state) : option state :=
+Definition irun (ph:phase) (i:oinstr) (st:state) : option state :=
   match i with
-  | ISym id => Some (push (TPat (Sym id)) st)
-  | IMeta id => Some (push (TPat (phi id)) st)
-  | IImp => match stack st with
+  | OSym id => Some (push (TPat (Sym id)) st)
+  | OMeta id => Some (push (TPat (phi id)) st)
+  | OImp => match stack st with
             | TPat r :: TPat l :: s => Some (set_stack (TPat (Imp l r) :: s) st)
             | _ => None end
-  | IApp => match stack st with
+  | OApp => match stack st with
             | TPat r :: TPat l :: s => Some (set_stack (TPat (App l r) :: s) st)
             | _ => None end
-  | IProp1 => Some (push (TProved ax_prop1) st)
-  | IProp2 => Some (push (TProved ax_prop2) st)
-  | IMP => match stack st with
+  | OProp1 => Some (push (TProved ax_prop1) st)
+  | OProp2 => Some (push (TProved ax_prop2) st)
+  | OMP => match stack st with
            | TProved p2 :: TProved (Imp l r) :: s =>
                if pat_eqb l p2 then Some (set_stack (TProved r :: s) st) else None
            | _ => None end
-  | IInst ids =>
+  | OInst ids =>
       match stack st with
       | t :: s1 =>
           match pop_pats (length ids) s1 with
@@ -72,13 +72,13 @@ Definition irun (ph:phase) (i:instr) (st:state) : option state :=
               end
           | None => None end
       | [] => None end
-  | IPop => match stack st with _ :: s => Some (set_stack s st) | [] => None end
-  | ISave => match stack st with
+  | OPop => match stack st with _ :: s => Some (set_stack s st) | [] => None end
+  | OSave => match stack st with
              | t :: _ => Some (mkst (stack st) (memory st ++ [t]) (claims st))
              | [] => None end
-  | ILoad i => match nth_error (memory st) (N.to_nat i) with
+  | OLoad i => match nth_error (memory st) (N.to_nat i) with
                | Some t => Some (push t st) | None => None end
-  | IPublish =>
+  | OPublish =>
       match ph with
       | Gamma => match stack st with
                  | TPat p :: s => Some (mkst s (memory st ++ [TProved p]) (claims st))
@@ -93,19 +93,19 @@ Definition irun (ph:phase) (i:instr) (st:state) : option state :=
       end
   end.
 
-Fixpoint iruns (ph:phase) (is:list instr) (st:state) : option state :=
+Fixpoint iruns (ph:phase) (is:list oinstr) (st:state) : option state :=
   match is with
   | [] => Some st
   | i::r => match irun ph i st with Some st' => iruns ph r st' | None => None end
   end.
 
 (** [Interpreter.pattern] for the patterns of the fragment (post-order) *)
-Fixpoint emit_pat (p:pat) : list instr :=
+Fixpoint emit_pat (p:pat) : list oinstr :=
   match p with
-  | Sym id => [ISym id]
-  | Imp l r => emit_pat l ++ emit_pat r ++ [IImp]
-  | App l r => emit_pat l ++ emit_pat r ++ [IApp]
-  | MVar id _ _ _ _ _ => [IMeta id]
+  | Sym id => [OSym id]
+  | Imp l r => emit_pat l ++ emit_pat r ++ [OImp]
+  | App l r => emit_pat l ++ emit_pat r ++ [OApp]
+  | MVar id _ _ _ _ _ => [OMeta id]
   | _ => []
   end.
 
